@@ -51,7 +51,7 @@ pub fn payloads(fk: FK, cfg: Cfg, thorough: bool) -> Vec<Payload> {
             }
             lens.into_iter().map(|l| Payload::Bytes(block(l))).collect()
         }
-        FK::BlockU | FK::Exprloc => [0usize, 1, 127, 128, 255, 256, 16384].iter().map(|&l| Payload::Bytes(block(l))).collect(),
+        FK::BlockU | FK::Exprloc => [0usize, 1, 127, 128, 255, 256, 16384].iter().filter(|&&l| thorough || l < 16384).map(|&l| Payload::Bytes(block(l))).collect(),
         FK::Data(n) | FK::RefN(n) | FK::RefSup(n) | FK::StrxN(n) | FK::AddrxN(n) => int(n as usize),
         FK::Data16 => [0u128, 1, u128::MAX, 1 << 127, (1 << 127) - 1, 0x0102_0304_0506_0708_090a_0b0c_0d0e_0f10, 1 << 64].iter().map(|&x| Payload::Wide(x)).collect(),
         FK::Sdata => {
@@ -574,27 +574,18 @@ fn sub_decode(tier: Tier) -> Sub {
     let thorough = tier == Tier::Thorough;
     let len = forms.len() as u64 * cfgs.len() as u64;
     let bound = format!(
-        "{} forms (DWARF 2-5 + GNU addr_index/str_index/ref_alt/strp_alt) x {} attribute names (every name of DWARF 5 table 7.5 + GNU split-DWARF names + {} names without class information) x boundary payloads per encoding (integers 0,1,0x7f,0x80,0xff,max/2,max/2+1,max,byte pattern; 1..10-byte and over-long LEB128; blocks of 0,1,127,128,255,256,16384{} bytes; strings of 0,1,5,200 bytes; implicit constants min,-1,0,1,127,128,max) x version {{2,3,4,5}} x format x address size {{1,2,4,8}} x byte order (64 encodings): full product{}; every attribute followed by a sentinel attribute",
+        "{} forms (DWARF 2-5 + GNU addr_index/str_index/ref_alt/strp_alt) x {} attribute names (every name of DWARF 5 table 7.5 + GNU split-DWARF names + {} names without class information) x boundary payloads per encoding (integers 0,1,0x7f,0x80,0xff,max/2,max/2+1,max,byte pattern; 1..10-byte and over-long LEB128; blocks of 0,1,127,128,255,256{} bytes; strings of 0,1,5,200 bytes; implicit constants min,-1,0,1,127,128,max) x version {{2,3,4,5}} x format x address size {{1,2,4,8}} x byte order (64 encodings): full product{}; every attribute followed by a sentinel attribute",
         forms.len(),
         names.len(),
         EXTRA_NAMES.len(),
-        if thorough { ",65535" } else { "" },
-        if thorough { "" } else { " (quick tier: every second payload of each list, first and last always)" }
+        if thorough { ",16384,65535" } else { "" },
+        ""
     );
     Sub::new("decode-form-x-name-x-payload-x-encoding", len, &bound, move |ctx, i| {
         let mut mx = Mix(i);
         let cfg = *mx.pick(&cfgs);
         let (form, fname, fk) = *mx.pick(&forms);
-        let mut ps = payloads(fk, cfg, thorough);
-        if !thorough {
-            // quick tier: every second boundary payload (always the first and the last)
-            let n = ps.len();
-            let mut k = 0;
-            ps.retain(|_| {
-                k += 1;
-                (k - 1) % 2 == 0 || k == n
-            });
-        }
+        let ps = payloads(fk, cfg, thorough);
         let mut dies = vec![];
         for &name in &names {
             for p in &ps {
